@@ -1,26 +1,40 @@
 package main
 
 import (
+	"bytes"
 	"context"
 	"fmt"
 
+	"github.com/risor-io/risor"
+	"github.com/risor-io/risor/compiler"
+	ros "github.com/risor-io/risor/os"
 	"github.com/risor-io/risor/parser"
+	"github.com/risor-io/risor/vm"
 )
 
+type bufFile struct{ bytes.Buffer }
+
+func (b *bufFile) Close() error                                 { return nil }
+func (b *bufFile) Stat() (ros.FileInfo, error)                  { return nil, fmt.Errorf("no stat") }
+func (b *bufFile) ReadAt(p []byte, off int64) (int, error)      { return 0, fmt.Errorf("no readat") }
+func (b *bufFile) Seek(offset int64, whence int) (int64, error) { return 0, fmt.Errorf("no seek") }
+
 func main() {
-	for _, src := range []string{"x[\n:]", "x[\n]", "x[\n1]", "x[:\n]", "x[1:\n]", "x[\n:1]", "x[;]", "x[)]", "x[,]", "x[\n\n:]"} {
-		func() {
-			defer func() {
-				if r := recover(); r != nil {
-					fmt.Printf("%q PANIC %v\n", src, r)
-				}
-			}()
-			p, err := parser.Parse(context.Background(), src)
-			if err != nil {
-				fmt.Printf("%q ERR %s\n", src, err.Error()[:60])
-				return
-			}
-			fmt.Printf("%q OK %s\n", src, p.String())
-		}()
+	ctx := context.Background()
+	src := `import os
+os.stdout.write("hello")
+print("p")`
+	cfg := risor.NewConfig()
+	ast, _ := parser.Parse(ctx, src)
+	code, err := compiler.Compile(ast, cfg.CompilerOpts()...)
+	if err != nil {
+		panic(err)
+	}
+	machine := vm.New(code, cfg.VMOpts()...)
+	for i := 0; i < 3; i++ {
+		out := &bufFile{}
+		vos := ros.NewVirtualOS(ctx, ros.WithStdout(out))
+		err := machine.RunCode(ros.WithOS(ctx, vos), code)
+		fmt.Printf("run %d err=%v this-run's stdout=%q\n", i, err, out.String())
 	}
 }
